@@ -218,7 +218,10 @@ def binS (op : BinOp) (x y : SVal) : Option SRes :=
       | some sv => if sv < t.bits then some (.ok (.int t (zeros sv ++ a.take (t.bits - sv)))) else none
       | none => none
   | .shr, .int t a, .int _ s =>
-      if t.signed then none else
+      if t.signed then
+        (match isConst s with
+         | some sv => if sv < t.bits then some (.ok (.int t (a.drop sv ++ List.replicate sv (a.getLast?.getD (.c false))))) else none
+         | none => none) else
       match isConst s with
       | some sv => if sv < t.bits then some (.ok (.int t (a.drop sv ++ zeros sv))) else none
       | none => none
